@@ -375,6 +375,10 @@ Inductive prelude := PResp (c : oclass) | PRun (sh : shape) (c : pctx).
 Definition max_points : Z := 11000.
 Definition max_windows : Z := 100000.
 
+(* since 7e7939d FixPeriodPlanner also refuses a window that does not fit int64 nanoseconds (more than 292 years): its
+   length _to - _from wrapped around to a negative number there, which passed the cap and was then allocated *)
+Definition int64_limit : Z := 9223372036854775808.
+
 Definition plan (sh : shape) (q : request) (from_s to_s stepms lim : Z) : prelude :=
   if q_dur_s q <=? 0 then (match sh with ShRate | ShAggJson => PResp O5xx | _ =>
         PRun sh (mkP (mkFp 0 0 1 1) lim 0 0 (q_instant q)) end)
@@ -386,11 +390,13 @@ Definition plan (sh : shape) (q : request) (from_s to_s stepms lim : Z) : prelud
   let slen := Z.quot ((ato - afrom) * 1000000000) dur in
   let points := Z.quot (f_to fx - f_from fx) (f_step fx) in
   match sh with
-  | ShAggJson => if max_points <? points then PResp O5xx
+  | ShAggJson => if int64_limit <=? f_to fx - f_from fx then PResp O5xx
+                 else if max_points <? points then PResp O5xx
                  else if max_windows <? slen then PResp O5xx
                  else if q_query_err q then PResp O5xx
                  else PRun sh (mkP fx lim (afrom * 1000000000) slen (q_instant q))
-  | ShRate => if max_points <? points then PResp O5xx
+  | ShRate => if int64_limit <=? f_to fx - f_from fx then PResp O5xx
+              else if max_points <? points then PResp O5xx
               else if q_query_err q then PResp O5xx else PRun sh (mkP fx lim (afrom * 1000000000) slen (q_instant q))
   | _ => if q_query_err q then PResp O5xx else PRun sh (mkP fx lim (afrom * 1000000000) slen (q_instant q))
   end.
